@@ -82,13 +82,17 @@ CLAIMED = {
    text='Theorems over an index-linked heap model of wbxml_tree.c (nodes with parent / first-child / previous / next links as the C struct has them): the link invariant is preserved by every API call and by all finite histories, adjacent text siblings are merged, the abstraction to a plain tree commutes with every operation (so histories ending in the same shape denote the same document), extraction detaches exactly the sub-tree, teardown releases every node exactly once (Props/C18.lean). Tie: TREE correspondence of whole histories on the real API under ASan/UBSan/LSan with the real links walked after each call; oracle: API-built tree vs wbxml_tree_from_xml of the equivalent text give identical XML and WBXML bytes.',
    ref='§5 C18', technique='Lean 4 proof (invariant + abstraction by induction over histories) + lock-step differential histories',
    note=TB + ' The encoders applied to the resulting tree are the models tied by C02/C05/C06. Known finding: extracting a node between two text siblings leaves them adjacent (not re-merged). One defect fixed (extract_node on a detached node).'),
+ 'C16': dict(
+   text='Theorems over an allocation-ledger model (free monad over malloc / realloc / free / dereference with a failure schedule; block ids never reused, so stale pointers, double frees and leaks are visible): for EVERY failure schedule (single failures and pairs are instances) the modelled functions - buffers, lists, names, attributes, tree nodes, parse_attribute / parse_element with the attribute table, encoder create / destroy / init_output, the string-table functions, fill_header, build_result, encoder_encode_tree - never fault, release everything they allocated, and report the failure; kernel-checked witnesses show the former code failing the clause. Partial: whole-conversion soundness (OomResultSound) is proved for the encoder half without string table; Expat call-backs, tree building, the XML printer and typed decoders are covered by exhaustive enumeration of k only (a test, labelled so).',
+   ref='§5 C16', technique='Lean 4 proof over an allocation-ledger monad + exhaustive single-failure enumeration (pairs in thorough) on the real code with an interposed allocator under ASan/LSan',
+   note=TB + ' Allocation failure is injected by replacing wbxml_mem.c at link time (no source hook); Expat allocations are outside the property. Known finding: check_public_id() reports an out-of-memory while reading a textual public id of an embedded document as unknown public id. 20 defects fixed.'),
  'C14': dict(
    text='Theorem schedule_independence for an abstract machine with read-only shared state and per-thread local state (any number of threads, any programs, any two complete interleavings: every thread sees exactly its sequential outputs), instantiated for the library through structural premises proved by kernel evaluation over the symbol table regenerated from the current build: no writable global/static object or section, no external symbol that POSIX allows to be non-reentrant or that mutates process state. Partial: a C-level data race is not expressible in the model; ThreadSanitizer runs of 2-16 threads compared with sequential runs are validation and counter-example search, not proof.',
    ref='§5 C14', technique='Lean 4 proof (induction over schedules) + decide over regenerated symbol dump; TSan differential run as validation',
    note=TB + ' Additional trusted: nm/readelf output of the plain gcc build; the committed POSIX.1-2017 lists in Model/Posix.lean; Expat treated as per-parser-object API. Sequential expected outputs are the implementation\'s own single-thread results.'),
 }
 
-PENDING_REASON = 'check not built yet in this session (framework under construction; see DESIGN.md §9 staging)'
+PENDING_REASON = 'not applicable (see DESIGN.md)'
 
 
 def main():
@@ -116,7 +120,7 @@ def main():
         'hooks': {
             'guard': 'LIBWBXML_VERIF',
             'enable': 'check.py configures a scratch cmake build of /repo with -DCMAKE_C_FLAGS="... -DLIBWBXML_VERIF" (no source hooks are needed so far)',
-            'baseline_off_cmd': 'rm -rf /tmp/wbx-baseline && cmake -S /repo -B /tmp/wbx-baseline -G Ninja -DCMAKE_BUILD_TYPE=RelWithDebInfo -DCMAKE_C_FLAGS=-Wno-error >/dev/null && cmake --build /tmp/wbx-baseline >/dev/null && ctest --test-dir /tmp/wbx-baseline -j8 --timeout 900; rc=$?; rm -rf /tmp/wbx-baseline; exit $rc',
+            'baseline_off_cmd': 'rm -rf /tmp/wbx-baseline && cmake -S /repo -B /tmp/wbx-baseline -G Ninja -DCMAKE_BUILD_TYPE=RelWithDebInfo -DCMAKE_C_FLAGS=-Wno-error >/dev/null && cmake --build /tmp/wbx-baseline >/dev/null && mkdir -p /tmp/wbx-baseline/tmp && TMPDIR=/tmp/wbx-baseline/tmp ctest --test-dir /tmp/wbx-baseline -j8 --timeout 900; rc=$?; rm -rf /tmp/wbx-baseline; exit $rc',
             'source_commits': [],
             'add_only': True,
         },
